@@ -36,6 +36,7 @@ import (
 	announcerpb "github.com/keep-network/keep-core/pkg/protocol/announcer/gen/pb"
 	"github.com/keep-network/keep-core/pkg/protocol/group"
 	"github.com/keep-network/keep-core/pkg/tecdsa"
+	"google.golang.org/protobuf/proto"
 	"pgregory.net/rapid"
 )
 
@@ -578,7 +579,7 @@ func TestVerif_C12_NodeSigningChannel(t *testing.T) {
 						want[p.msg.idx] = fmt.Sprintf("R=%v S=%v end=%d", v.signature.R, v.signature.S, v.endBlock)
 					}
 				case *announcerpb.AnnouncementMessage:
-					env.bytes, err = v.Marshal()
+					env.bytes, err = proto.Marshal(v)
 				}
 				if err != nil {
 					t.Fatalf("marshal: %v", err)
@@ -672,14 +673,14 @@ func TestVerif_C12_NodeSigningChannel(t *testing.T) {
 			case *signingDoneMessage:
 				env.bytes, err = v.Marshal()
 			case *announcerpb.AnnouncementMessage:
-				env.bytes, err = v.Marshal()
+				env.bytes, err = proto.Marshal(v)
 			}
 			if err != nil {
 				t.Fatalf("marshal: %v", err)
 			}
 			envelopes = append(envelopes, env)
 		}
-		sentinel, err := (&announcerpb.AnnouncementMessage{SenderID: uint32(sc.receiver), ProtocolID: "c12-sentinel", SessionID: "-"}).Marshal()
+		sentinel, err := proto.Marshal(&announcerpb.AnnouncementMessage{SenderID: uint32(sc.receiver), ProtocolID: "c12-sentinel", SessionID: "-"})
 		if err != nil {
 			t.Fatalf("marshal: %v", err)
 		}
